@@ -46,6 +46,11 @@ type VMScenario struct {
 	Progs    []ProgSpec `json:"programs"`
 	Envs     []*EnvData `json:"envs"`
 	Ops      []VMOp     `json:"ops"`
+	// ConstExpr: CI, CS and CB are marked as constant expressions at Compile.
+	ConstExpr bool `json:"const_expr_options,omitempty"`
+	// CrossProcess (C09 only): digests of the compiled programs as computed by
+	// another process; a compilation here must produce the same.
+	CrossProcess []string `json:"cross_process_digests,omitempty"`
 }
 
 func (sc *VMScenario) clone() *VMScenario {
@@ -98,7 +103,7 @@ func genVMScenario(seed uint64, idx int, tier string, snapshotBias bool) *VMScen
 			ps.Tree = genNestedFail(g0)
 		default:
 			ps.Kind = "cheap"
-			cfg := GenCfg{Budget: g0.Range(3, 18), Calls: true, Failing: true, Strings: true, Closures: true, Maps: true, Objects: true, ShortPred: true, NilSafe: true, SliceCall: true}
+			cfg := GenCfg{Budget: g0.Range(3, 18), Calls: true, Failing: true, Strings: true, Closures: true, Maps: true, Objects: true, ShortPred: true, NilSafe: true, SliceCall: true, ConstFns: true}
 			cfg.AnyUsable = false
 			g := NewGen(g0, cfg)
 			ps.Tree = genRoot(g, g0)
@@ -106,6 +111,9 @@ func genVMScenario(seed uint64, idx int, tier string, snapshotBias bool) *VMScen
 		if snapshotBias && r.Chance(1, 2) {
 			ps.Kind = "touching"
 			ps.Tree = genTouching(g0)
+		} else if snapshotBias && r.Chance(1, 3) {
+			ps.Kind = "const-heavy"
+			ps.Tree = genConstHeavy(g0)
 		}
 		ps.Source = Print(ps.Tree, Layout{}).Src
 		sc.Progs = append(sc.Progs, ps)
@@ -271,6 +279,9 @@ func compileAll(sc *VMScenario, ctx *RunCtx, prop string) ([]compiledProg, *Find
 		opts := []expr.Option{expr.Env(sample)}
 		if !p.Optimize {
 			opts = append(opts, expr.Optimize(false))
+		}
+		if sc.ConstExpr {
+			opts = append(opts, expr.ConstExpr("CI"), expr.ConstExpr("CS"), expr.ConstExpr("CB"))
 		}
 		pr, co := sutCompile(src, opts...)
 		if co.Failed() {
